@@ -57,8 +57,9 @@ def relevant(step, focus):
 
 
 def failing_positions(spec, out, steps, focus):
-    """positions where `out` violates the best alternative (the one `out` follows longest, then the one with the fewest
-    violations); None = shape mismatch"""
+    """positions where `out` violates the best alternative: the one that agrees with `out` on most accept/refuse decisions
+    of the assignments (that is what tells the alternatives apart), then the one `out` follows longest, then the one with
+    the fewest violations; None = shape mismatch"""
     alts, hints = parse_psteps(spec)
     got = out.split(";")
     best = None
@@ -66,7 +67,7 @@ def failing_positions(spec, out, steps, focus):
         if len(a) != len(got):
             continue
         bad = [i for i, (w, g) in enumerate(zip(a, got)) if relevant(steps[i], focus) and not step_ok(w, g)]
-        rank = (-(bad[0] if bad else len(got) + 1), len(bad))
+        rank = (sum(1 for i in bad if steps[i][0] == "S"), -(bad[0] if bad else len(got) + 1), len(bad))
         if best is None or rank < best[2]:
             best = (bad, a, rank)
     if best is None:
@@ -387,14 +388,23 @@ PROBES = [
 
 
 def fix_token(ctx):
-    """`` for the unchanged tree (/repo: the model of the code as it is applies); for a scratch worktree the proposed
-    repairs it contains, found by probing the harness built from it, as the token the driver understands"""
-    if ctx.key == "main" or not getattr(ctx, "harness", None):
+    """The proposed repairs the tree under test contains, found by probing the harness built from it, as the token the
+    Lean driver understands (`` when there is none: the model of the code as it is, which the theorems are about, applies).
+    On a scratch worktree this is how a proposed fix is validated.  On /repo itself a detected repair means that the fix was
+    applied and the as-is model, its theorems and the known findings must now be brought up to date: reported as a problem."""
+    if not getattr(ctx, "harness", None):
         return ""
     outs = vlib.run_parallel(ctx.harness, [l for _, l, _ in PROBES], timeout=60, shards=1)
     flags = [name for (name, _, ok), o in zip(PROBES, outs) if ok(o)]
-    ctx.notes.append("proposed repairs detected in the tree under test: " + (",".join(flags) or "none"))
-    return " fx=" + ",".join(flags) if flags else ""
+    if not flags:
+        return ""
+    ctx.notes.append("proposed repairs detected in the tree under test: " + ",".join(flags))
+    if ctx.key == "main":
+        ctx.problems.append({"kind": "T", "name": "packet model out of date",
+                             "detail": "the working tree contains the repair(s) " + ", ".join(flags) + " of verif/proposed-fixes: P2sh.Proto (the model of the code as it is) "
+                                       "and the theorems of Props/C15-C18 that are stated about it describe the old code. Move the corresponding branches of "
+                                       "P2sh.ProtoFix into P2sh.Proto, replace the witness theorems by the full ones, and mark the known findings fixed."})
+    return " fx=" + ",".join(flags)
 
 
 def witness_cases(prop):
